@@ -120,7 +120,7 @@ def run(case):
             em += span / w * float(M[k])
             ev += span / w * float(V[k] + M[k] * M[k])
         mom[u] = (em, ev - em * em)
-    small = ts.num_nodes > 9
+    small = ts.num_nodes > 9 or (isinstance(case["tree"].get("arg"), dict) and "renumber" in case["tree"]["arg"])
     tps = [("int", k) for k in ((2, 3, 5, 20, 40) if small else range(2, 41))] + [("grid", i) for i in range(len(GRIDS))]
     for (tk, tv), dist, (pname, pop) in itertools.product(tps, ("lognorm", "gamma"), POPS):
         forms = [("obj", pop)]
